@@ -31,7 +31,7 @@ typedef long double ld;
 #define MAXB 4
 #define F9_HI 1.2e-2
 
-typedef struct { long mseed; int n, B, w[MAXB], scaling, npc, dec, nproc; } cjob;
+typedef struct { long mseed; int n, B, w[MAXB], scaling, npc, dec, nproc; long budget; } cjob;
 
 static void rand_orth(vrng *r, int rows, int cols, int ones, ld *Q)
 {
@@ -97,7 +97,9 @@ static int child(void *arg)
   int n = jb->n, B = jb->B, npc = jb->npc, scaling = jb->scaling, M = 0, coff[MAXB + 1];
   for(int b = 0; b < B; b++){ coff[b] = M; M += jb->w[b]; } coff[B] = M;
   vrt_force_nproc((size_t)jb->nproc);
-  vrt_install_iter_budget(3000000, 0);
+  /* deterministic verdict on non-termination: conforming fits of this sweep need < 2,000 iterations per component (CPCA criterion 1e-18,
+   * separated leading spectrum; the unseparated tail is never requested) */
+  vrt_install_iter_budget(jb->budget, 0);
   vrng rg; rg.s = (uint64_t)jb->mseed * 0x9E3779B97F4A7C15ULL + 4242u; for(int i = 0; i < 4; i++) vr_next(&rg);
   int r = (n - 1 < M) ? n - 1 : M;
   ld *U = malloc(sizeof(ld) * n * r), *V = malloc(sizeof(ld) * M * r), *sig = malloc(sizeof(ld) * r);
@@ -213,7 +215,7 @@ int main(int argc, char **argv)
 {
   if(argc < 4){ fprintf(stderr, "usage\n"); return 2; }
   vrt_open(argv[1]);
-  cjob jb;
+  cjob jb; jb.budget = getenv("C09_ITER_BUDGET") ? atol(getenv("C09_ITER_BUDGET")) : 40000;
   if(!strcmp(argv[2], "one") && argc >= 10){
     jb.mseed = atol(argv[3]); jb.n = atoi(argv[4]); jb.scaling = atoi(argv[5]); jb.npc = atoi(argv[6]); jb.dec = atoi(argv[7]); jb.nproc = atoi(argv[8]); jb.B = atoi(argv[9]);
     if(jb.B < 2 || jb.B > MAXB || argc < 10 + jb.B){ fprintf(stderr, "bad blocks\n"); return 2; }
